@@ -243,7 +243,7 @@ impl Suite for C06Api {
                 cases.push(Case { class, input: Sx::tagged("expr", vec![table.sx(), layout.sx(), e.sx()]) });
             }
             if ti % 20 == 3 {
-                // i64::MIN % -1 (F9), also as MIN / -1 and (MIN + 1) / -1 (the conservative guard)
+                // i64::MIN % -1 (= 0 since fix 5836e7f), MIN / -1 and (MIN + 1) / -1 (the conservative guard)
                 let a = vec![i64::MIN, i64::MIN + 1, i64::MIN + 2, i64::MIN + 7]; // narrow range: a wide one is C01's F19
                 let t2 = Table {
                     cols: vec![
@@ -354,9 +354,7 @@ impl Suite for C06Api {
                 };
                 vec![Outcome {
                     // known engine gaps (type errors, panics) are judged by the oracle alone
-                    // when both an Overflow row and an `i64::MIN % -1` row exist, which failure surfaces
-                    // depends on the order in which the engine runs the operators: judged by the oracle only
-                    model: if oracle.is_none() && !(any_err && has_min_mod_case(&e, &rows)) { Some("aexpr_column".into()) } else { None },
+                    model: if oracle.is_none() { Some("aexpr_column".into()) } else { None },
                     model_input: Some(Sx::l(vec![
                         Sx::l(rows.iter().map(|row| Sx::list(row, |c| Sx::opt(c.map(Sx::int)))).collect()),
                         e.sx(),
@@ -442,24 +440,6 @@ fn partial_hits_sentinel(rows: &[Vec<Option<i64>>], col: usize, layout: &Layout)
         }
     }
     false
-}
-
-/// does some row evaluate `i64::MIN % -1` (the engine panics there, F9)?
-fn has_min_mod_case(e: &AExpr, rows: &[Vec<Option<i64>>]) -> bool {
-    fn walk(e: &AExpr, row: &[Option<i64>]) -> bool {
-        if let AExpr::Bin(op, l, r) = e {
-            if walk(l, row) || walk(r, row) {
-                return true;
-            }
-            if *op == "mod" {
-                if let (Ok(Some(a)), Ok(Some(b))) = (ref_eval(l, row), ref_eval(r, row)) {
-                    return a == i64::MIN && b == -1;
-                }
-            }
-        }
-        false
-    }
-    rows.iter().any(|row| walk(e, row))
 }
 
 /// does some row hit `x / -1` with x = -i64::MAX (reported as overflow by the engine's guard)?
